@@ -36,6 +36,12 @@ SNIPPETS = [
     ("fullDoeS", "State v. Doe, 4 U.S. 33 (1990).", "FullCaseCitation", 0),
     ("fullDze", "State v. Dze, 3 U.S. 22 (1990).", "FullCaseCitation", 0),  # resolved_case_name_short set to 'Doe' below (two-step flow)
     ("refDze", "State v. Dze, 3 U.S. 22 (1990). Later, Dze at 25 held.", "ReferenceCitation", 0),
+    # optional symbols: extracted only by a tree that accepts such a page at all; a page without any letter or digit is a
+    # placeholder, whatever character it is written with
+    ("fullDash1", "Carpenter v. United States, 585 U.S. --- (2018).", "FullCaseCitation", 0),
+    ("fullDash2", "Trump v. Hawaii, 585 U.S. --- (2018).", "FullCaseCitation", 0),
+    ("fullJ2", "Doe v. Jones, 2 U.S. 70 (1992).", "FullCaseCitation", 0),  # a second case with the party Jones, in another volume
+    ("supraJones", "See Jones, supra, at 55.", "SupraCitation", 0),
     ("fullMac", "Mac v. Arthur, 4 U.S. 40 (1990).", "FullCaseCitation", 0),
     ("supraMacArthur", "See MacArthur, supra, at 5.", "SupraCitation", 0),  # in neither party name, only in their concatenation
     ("fullC", "Bar v. Baker, 2 F.2d 20 (1992).", "FullCaseCitation", 0),
@@ -73,11 +79,13 @@ SNIPPETS = [
     ("idPara", "Id. at ¶ 5.", "IdCitation", 0),
     ("unknown", "§ 5", "UnknownCitation", 0),
 ]
-NAMES = [s[0] for s in SNIPPETS]
+OPTIONAL = ("fullDash1", "fullDash2")
+NAMES = [s[0] for s in SNIPPETS if s[0] not in OPTIONAL]  # optional symbols are appended by build_alphabet() when they exist
 CORE12 = ["fullA", "fullA0", "fullA2", "fullA3", "fullB", "fullC", "fullC3", "fullP", "fullQ", "fullU", "shortAmb", "shortAmbJones", "shortP", "shortPQux", "supraBar", "refJones", "idNoPin", "idValid", "idEdgeOut", "unknown"]
+DEEP7 = ["fullB", "fullJ2", "supraJones", "fullA", "supraBar", "shortAmbJones", "idNoPin"]  # length-6 sequences: memo / resume logic between the supra and the short-form resolver
 MID32 = CORE12 + ["fullA4", "fullA5", "fullM1", "fullM2", "fullM4", "fullM5", "fullFoo2", "supraFooVol", "supraFoo", "fullDze", "refDze", "fullDoeS"]
-CLASS = {"fullA": "A", "fullA2": "A", "fullA0": "A", "fullA3": "A", "fullA4": "A", "fullA5": "A", "fullBrown": "Brown", "fullM1": "MA", "fullM4": "MA", "fullM5": "MA", "fullFoo2": "Foo2", "fullDoeS": "DoeS", "fullDze": "Dze", "fullMac": "Mac", "fullM2": "MJ", "fullM3": "MJ", "jour2": "jour", "lawU1": "lawU", "lawU2": "lawU", "fullB": "B", "fullC": "C", "fullC3": "C3", "fullP": "P", "fullQ": "Q", "fullU": "U", "law": "law", "lawR1": "lawR1", "lawR2": "lawR2", "jour": "jour", "jourP": "jourP"}
-PLACEHOLDER_CLASSES = ("P", "Q", "U")  # every instance is its own resource: the canonical state counts them (capped at 2)
+CLASS = {"fullA": "A", "fullA2": "A", "fullA0": "A", "fullA3": "A", "fullA4": "A", "fullA5": "A", "fullBrown": "Brown", "fullDash1": "D1", "fullDash2": "D2", "fullJ2": "J2", "fullM1": "MA", "fullM4": "MA", "fullM5": "MA", "fullFoo2": "Foo2", "fullDoeS": "DoeS", "fullDze": "Dze", "fullMac": "Mac", "fullM2": "MJ", "fullM3": "MJ", "jour2": "jour", "lawU1": "lawU", "lawU2": "lawU", "fullB": "B", "fullC": "C", "fullC3": "C3", "fullP": "P", "fullQ": "Q", "fullU": "U", "law": "law", "lawR1": "lawR1", "lawR2": "lawR2", "jour": "jour", "jourP": "jourP"}
+PLACEHOLDER_CLASSES = ("P", "Q", "U", "D1", "D2")  # every instance is its own resource: the canonical state counts them (capped at 2)
 K = {}
 
 
@@ -87,8 +95,13 @@ def build_alphabet():
     for name, text, cls, idx in SNIPPETS:
         cs = [c for c in get_citations(text) if type(c).__name__ == cls]
         if len(cs) <= idx:
+            if name in OPTIONAL:
+                continue
             raise RuntimeError(f"alphabet symbol {name}: snippet {text!r} yields no {cls}")
         K[name] = cs[idx]
+        if name in OPTIONAL and name not in NAMES:
+            NAMES.append(name)
+            CORE12.append(name)
     # sanity of the alphabet's intent (harness self-check, not a verdict)
     assert norm_reporter(K["fullA"]) == norm_reporter(K["fullA2"]) == "U.S." and norm_reporter(K["fullC3"]) == "F.3d"
     assert is_placeholder(K["fullP"]) and is_placeholder(K["fullQ"]) and is_placeholder(K["fullU"]) and is_placeholder(K["jourP"])
@@ -113,7 +126,7 @@ def instantiate(seq):
 def is_placeholder(c):
     """A page written as underscores only (decided from the text, not from what the code stored)."""
     page = c.groups.get("page")
-    return page is None or re.fullmatch(r"_+", page) is not None
+    return page is None or not any(ch.isalnum() for ch in page)
 
 
 _DB_NORM = {}
